@@ -56,7 +56,12 @@ KeyRoots == {Obj(<<SC("@t0", One)>>, <<>>), Obj(<<P(Kr, Ref(<<"@t0">>, <<>>)), S
              Obj(<<SC("@t0", Arr(<<Ref(<<"@t1">>, <<>>)>>, <<>>))>>, <<>>),
              \* a type named inside an or rule set next to another rule (the rule set becomes an unnamed type of its own): used names
              Lit(NumD(N1), <<R("or", [t |-> "list", items |-> <<[t |-> "set", rules |-> <<R("type", TRef("@t0")), R("nullable", BV(TRUE))>>], TRef("@t1"), IdV("integer")>>])>>),
-             Obj(<<P(Ka, Lit(NumD(N1), <<R("or", [t |-> "list", items |-> <<[t |-> "set", rules |-> <<R("type", TRef("@t1")), R("nullable", BV(TRUE))>>], IdV("integer")>>])>>))>>, <<>>)}
+             Obj(<<P(Ka, Lit(NumD(N1), <<R("or", [t |-> "list", items |-> <<[t |-> "set", rules |-> <<R("type", TRef("@t1")), R("nullable", BV(TRUE))>>], IdV("integer")>>])>>))>>, <<>>),
+             \* two rule sets that each name a type (two unnamed types): the used names come in the order of the text
+             Lit(NumD(N1), <<R("or", [t |-> "list", items |-> <<[t |-> "set", rules |-> <<R("type", TRef("@t1")), R("nullable", BV(TRUE))>>],
+                                                                [t |-> "set", rules |-> <<R("type", TRef("@t0")), R("nullable", BV(TRUE))>>], IdV("integer")>>])>>),
+             Obj(<<P(Ka, Lit(NumD(N1), <<R("or", [t |-> "list", items |-> <<[t |-> "set", rules |-> <<R("type", TRef("@t0")), R("nullable", BV(TRUE))>>], IdV("integer")>>])>>)),
+                   P(Kb, Lit(NumD(N1), <<R("or", [t |-> "list", items |-> <<[t |-> "set", rules |-> <<R("type", TRef("@t1")), R("nullable", BV(TRUE))>>], IdV("string")>>])>>))>>, <<>>)}
 DeepRoots == {Obj(<<P(Kr, Ref(<<"@t0">>, <<>>)), P(Kx, Ref(<<"@t1">>, <<>>))>>, <<>>)}
 Roots == IF Level = 3 THEN DeepRoots ELSE IF Level = 4 THEN KeyRoots
          ELSE {Ref(<<"@t0">>, <<>>), Obj(<<P(Kr, Ref(<<"@t0">>, <<>>)), P(Kx, Ref(<<TName(NTypes - 1)>>, <<OptR>>))>>, <<>>)}
